@@ -100,6 +100,12 @@ ReadEof ==         \* the pipe reports end of stream: read() = 0 => Closed
   /\ Log(Ev("closed", 0, rd))
   /\ UNCHANGED <<si, rd, buf, ws, we, cur, nret, consumed, faults>>
 
+ReadEarlyEof ==    \* the pipe reports end of stream although the sender has not sent everything (a fault): Closed
+  /\ rpc = "read" /\ we < Cap /\ rd < Len(Stream) /\ faults < FaultMax
+  /\ rpc' = "closed" /\ faults' = faults + 1 /\ calls' = calls + 1
+  /\ Log(Ev("eof", 0, rd))
+  /\ UNCHANGED <<si, rd, buf, ws, we, cur, nret, consumed>>
+
 ReadErr ==         \* a transient read error: recv returns Err(Read(e)); the receiver may be used again
   /\ rpc = "read" /\ we < Cap /\ faults < FaultMax
   /\ rpc' = "idle" /\ faults' = faults + 1 /\ calls' = calls + 1
@@ -110,11 +116,15 @@ GuardDrop ==       \* RecvGuard::drop: skip(size())
   /\ rpc = "guard"
   /\ cur <= we - ws                     \* GuardInside says this is never false
   /\ consumed' = consumed + cur
-  /\ IF ws + cur = we THEN ws' = 0 /\ we' = 0 ELSE ws' = ws + cur /\ we' = we
+  \* (whether an emptied window is moved back to the start of the buffer is a policy: the code does it)
+  /\ IF ws + cur = we /\ Policy = "code" THEN ws' = 0 /\ we' = 0
+     ELSE IF ws + cur = we THEN \/ ws' = 0 /\ we' = 0
+                                \/ ws' = ws + cur /\ we' = we
+     ELSE ws' = ws + cur /\ we' = we
   /\ rpc' = "idle"
   /\ UNCHANGED <<si, rd, buf, cur, nret, calls, faults, path>>
 
-Next == RecvBegin \/ DoValidate \/ Compact \/ OutOfMemory \/ ReadData \/ ReadEof \/ ReadErr \/ GuardDrop
+Next == RecvBegin \/ DoValidate \/ Compact \/ OutOfMemory \/ ReadData \/ ReadEof \/ ReadEarlyEof \/ ReadErr \/ GuardDrop
 Spec == Init /\ [][Next]_vars /\ WF_vars(Next)
 
 \* the same, printing the path of every generated transition (the script + returns that lead to it)
@@ -136,7 +146,7 @@ ValidStream == Streams[si].nmsg >= 0
 DeliveredInOrder == ValidStream => /\ nret <= Streams[si].nmsg
                                    /\ rpc \notin {"parse", "oom"}
                                    /\ (rpc = "guard" => LET r == Validate(MsgT, Occupied, 0) IN r.ok)
-ClosedMeansAll == (ValidStream /\ rpc = "closed") => nret = Streams[si].nmsg /\ we = ws
+ClosedMeansAll == (ValidStream /\ rpc = "closed" /\ rd = Len(Stream)) => nret = Streams[si].nmsg /\ we = ws
 \* a complete malformed head gives "parse", never "read more": by construction of DoValidate, stated as an invariant
 ParseNotStarve == rpc = "read" => Validate(MsgT, Occupied, 0).cls = "size"
 Terminates == <>Terminal
